@@ -374,6 +374,11 @@ def monitor(spec, t):
     for e in sugg:
         for sig, what in check_config(cs if e["level"] == "scheduler" else hp_cs, e["config"], e["level"], exempt):
             add(sig, f"trial {e['trial']}: {what}", {"config": repr(e["config"])})
+    # ... also the configuration a scheduler attaches to the resume of a paused trial (promotion with max_resource_attr)
+    for e in events:
+        if e["ev"] == "resume" and e.get("config") is not None:
+            for sig, what in check_config(cs, dict(e["config"]), "scheduler", exempt):
+                add(sig, f"resume of trial {e['trial']}: {what}", {"config": repr(e["config"])})
     for e in events:
         if e["ev"] == "explore":
             for k, dom in hp_cs.items():
